@@ -262,6 +262,18 @@ fn multi_unit(rep: &mut Rep, r: &mut Rng) {
 
 fn offsets(rep: &mut Rep, hh: u32, mm: u32, ss: u32) {
     let w = hh as i128 * NS_H + mm as i128 * NS_MIN;
+    // the constructor the offset texts denote
+    for sign in [1i8, -1, 0, -128, 127] {
+        let want = if sign < 0 { -w } else { w };
+        match guard(|| Duration::from_tz_offset(sign, hh as i64, mm as i64)) {
+            Err(e) => rep.fail(&format!("from_tz_offset/panic/{}", e.class()), None, || format!("from_tz_offset({sign},{hh},{mm}) panicked: {}", e.msg)),
+            Ok(g) => {
+                if count_d(g) != want || !is_canonical(g.to_parts()) {
+                    rep.fail("from_tz_offset/value", None, || format!("from_tz_offset({sign},{hh},{mm}) = {} want count {}", fmt_parts(g.to_parts()), want));
+                }
+            }
+        }
+    }
     check_text(rep, &format!("+{:02}:{:02}", hh, mm), w, "text/offset");
     check_text(rep, &format!("-{:02}:{:02}", hh, mm), -w, "text/offset");
     check_text(rep, &format!("+{:02}{:02}", hh, mm), w, "text/offset");
